@@ -1,9 +1,177 @@
 import ALV.Common.Json
+import ALV.Model.C01
+import ALV.Spec.C01
+import ALV.Gen.OpTable
 namespace ALV.Driver.C01
-open ALV ALV.J
+open ALV ALV.J ALV.C01
 
-/-- stub: the C01 slice is not built yet -/
-def handle (entry : String) (_j : Json) : Except String Json :=
-  throw s!"C01: unknown entry {entry}"
+def nm (s : String) : Name := s.toList
+def str (n : Name) : Json := Json.str (String.ofList n)
+
+partial def termJson : Term → Json
+  | .atom i => Json.int i
+  | .app f args => Json.arr (str f :: args.map termJson)
+
+def getTerm (j : Json) : Except String Term := do
+  let i ← getNat j
+  pure (.atom i)
+
+/-- program tree: {"k": kind, ...} -/
+partial def getPy (j : Json) : Except String Py := do
+  let k ← getStr (← field j "k")
+  match k with
+  | "scalar" => pure (.scalar (← getTerm (← field j "c")))
+  | "ignored" => pure (.ignored (← getTerm (← field j "c")))
+  | "iterable" =>
+    let xs ← getList getTerm (← field j "xs")
+    let t ← getNat (← field j "tag")
+    pure (.iterable t xs)
+  | "stream1" => pure (.stream1 (← getPy (← field j "a")))
+  | "stream2" => pure (.stream2 (← getPy (← field j "a")) (← getPy (← field j "b")))
+  | "un" => pure (.un (nm (← getStr (← field j "d"))) (← getPy (← field j "s")))
+  | "bin" => pure (.bin (nm (← getStr (← field j "d"))) (← getPy (← field j "s")) (← getPy (← field j "o")))
+  | "meth" => pure (.meth (nm (← getStr (← field j "l"))) (← getPy (← field j "s")))
+  | "append" => pure (.append (← getPy (← field j "s")) (← getPy (← field j "o")))
+  | _ => throw s!"C01: unknown node kind {k}"
+
+def errName : Err → String
+  | .typeError => "TypeError"
+  | .attributeError => "AttributeError"
+  | .notImplemented => "NotImplemented"
+  | .notAStream => "NotAStream"
+
+def lenJson : Len → Json
+  | .fin n => Json.int n
+  | .inf => Json.str "inf"
+
+def sortName : Option Sort' → String
+  | none => "none"
+  | some .scalar => "scalar"
+  | some .ignored => "ignored"
+  | some .iter => "iter"
+  | some .stream => "stream"
+
+def unreadJson (u : List (Nat × Nat)) : Json := arr (fun (p : Nat × Nat) => Json.arr [Json.int p.1, Json.int p.2]) u
+
+def installed : Option (List (Name × Dunder)) := install ALV.Gen.OpTable.table
+
+def builderName : Builder → String
+  | .unary => "unary" | .binary => "binary" | .rbinary => "rbinary"
+
+def getKind (s : String) : Except String CKind :=
+  match s with
+  | "scalar" => pure .scalar | "str" => pure .str
+  | "list" => pure .list | "tuple" => pure .tuple | "set" => pure .set | "frozenset" => pure .frozenset
+  | "deque" => pure .deque
+  | "generator" => pure .generator | "range" => pure .range | "enumerate" => pure .enumerate | "zip" => pure .zip
+  | "zip_longest" => pure .zipLongest | "map" => pure .map | "filter" => pure .filter
+  | "stream" => pure .stream | "streamSub" => pure .streamSub
+  | _ => throw s!"C01: unknown container kind {s}"
+
+def kindName : CKind → String
+  | .scalar => "scalar" | .str => "str" | .list => "list" | .tuple => "tuple" | .set => "set"
+  | .frozenset => "frozenset" | .deque => "deque" | .generator => "generator" | .range => "range"
+  | .enumerate => "enumerate" | .zip => "zip" | .zipLongest => "zip_longest" | .map => "map"
+  | .filter => "filter" | .stream => "stream" | .streamSub => "streamSub"
+
+def outKindName : OutKind → String
+  | .value => "value" | .generator => "generator" | .stream => "stream"
+  | .same k => "same:" ++ kindName k | .keyError => "keyError"
+
+/-- {"c":"obj","kind":k,"self":id} | {"c":"sized","kind":k,"tag":t,"xs":[ids]} |
+    {"c":"lazy","kind":k,"tag":t,"xs":[ids]} | {"c":"lazy","kind":k,"rep":id} -/
+def getBArg (j : Json) : Except String BArg := do
+  let k ← getKind (← getStr (← field j "kind"))
+  match ← getStr (← field j "c") with
+  | "obj" => pure (.obj k (← getTerm (← field j "self")))
+  | "sized" => pure (.sized k (← getNat (← field j "tag")) (← getList getTerm (← field j "xs")))
+  | "lazy" =>
+    match optField j "rep" with
+    | some r => pure (.lazy k (.rep (← getTerm r)))
+    | none => pure (.lazy k (.list (← getNat (← field j "tag")) (← getList getTerm (← field j "xs"))))
+  | c => throw s!"C01: unknown argument class {c}"
+
+def handle (entry : String) (j : Json) : Except String Json := do
+  match entry with
+  | "bcast" =>
+    let f := nm (← getStr (← field j "f"))
+    let dname := nm (← getStr (← field j "dname"))
+    let dpos ← match optField j "dpos" with
+      | some v => do pure (some (← getNat v))
+      | none => pure none
+    let args ← getList getTerm (← field j "args")
+    let kwargs ← getList (fun kv => do
+        let a ← getArr kv
+        match a with
+        | [k, v] => pure (nm (← getStr k), ← getTerm v)
+        | _ => throw "kwargs entry must be [name, id]") (← field j "kwargs")
+    let arg ← getBArg (← field j "arg")
+    let n ← getNat (← field j "n")
+    let c : ECall := { f := f, dname := dname, dpos := dpos, args := args, kwargs := kwargs, arg := arg }
+    let model : Json := match elementwise c with
+      | .value t => Json.mkObj [("out", Json.str "value"), ("items", arr termJson [t])]
+      | .gen it =>
+        let r := it.runS n
+        Json.mkObj [("out", Json.str "generator"), ("items", arr termJson r.1),
+                    ("unread0", unreadJson it.unread), ("unread", unreadJson r.2.unread)]
+      | .stream it =>
+        let r := it.runS n
+        Json.mkObj [("out", Json.str "stream"), ("items", arr termJson r.1),
+                    ("unread0", unreadJson it.unread), ("unread", unreadJson r.2.unread)]
+      | .cast k items left =>
+        Json.mkObj [("out", Json.str ("same:" ++ kindName k)), ("items", arr termJson items),
+                    ("unread", unreadJson left.unread)]
+      | .keyError => Json.mkObj [("out", Json.str "keyError")]
+    -- spec: kind by the property's rule; items = the function applied with each item in the argument's place
+    let srcItems : List Term := match arg with
+      | .obj _ self => [self]
+      | .sized _ _ xs => xs
+      | .lazy _ src => (List.range n).filterMap src.get
+    let spec := Json.mkObj [
+      ("found", Json.bool c.found),
+      ("out", Json.str (outKindName (if c.found then bcastKind arg.kind else .keyError))),
+      ("items", arr termJson (srcItems.map c.callWith))]
+    pure <| Json.mkObj [("model", model), ("spec", spec)]
+  | "expr" =>
+    let p ← getPy (← field j "prog")
+    let n ← getNat (← field j "n")
+    -- model: class built from the regenerated table, evaluation, then `n` calls of next at most
+    let model : Json :=
+      match installed with
+      | none => Json.mkObj [("err", Json.str "ClassCreationFails")]
+      | some tbl =>
+        match evalPy tbl p with
+        | .error e => Json.mkObj [("err", Json.str (errName e))]
+        | .ok (.iterable isS it) =>
+          let r := it.runS n
+          Json.mkObj [("kind", Json.str (if isS then "stream" else "iter")),
+                      ("items", arr termJson r.1),
+                      ("trace", arr (arr termJson) (it.runT n)),
+                      ("unread0", unreadJson it.unread),
+                      ("unread", unreadJson r.2.unread)]
+        | .ok (.scalar c) => Json.mkObj [("kind", Json.str "scalar"), ("value", termJson c)]
+        | .ok (.ignored c) => Json.mkObj [("kind", Json.str "ignored"), ("value", termJson c)]
+    -- spec: pointwise reading of the expression
+    let so := p.sort
+    let l := p.len
+    let cnt := match l with | .fin L => Nat.min n L | .inf => n
+    let items := (List.range cnt).filterMap p.at
+    let spec := Json.mkObj [("sort", Json.str (sortName so)), ("len", lenJson l), ("items", arr termJson items)]
+    pure <| Json.mkObj [("model", model), ("spec", spec)]
+  | "optable" =>
+    -- model: OpMethod entries and installed dunders; spec: the hand-written table
+    let ops := initializeOps ALV.Gen.OpTable.table
+    let opsJ := arr (fun (o : OpMethod) => Json.mkObj [
+        ("name", str o.name), ("symbol", str o.symbol), ("rev", Json.bool o.rev),
+        ("dname", str o.dname), ("arity", Json.int o.arity), ("func", str o.func)]) ops
+    let instJ : Json := match installed with
+      | none => Json.null
+      | some tbl => arr (fun (kv : Name × Dunder) => Json.mkObj [
+          ("dname", str kv.1), ("builder", Json.str (builderName kv.2.builder)), ("func", str kv.2.func)]) tbl
+    let specJ := arr (fun (sp : DunderSpec) => Json.mkObj [
+        ("dname", str sp.dname), ("builder", Json.str (builderName sp.builder)), ("func", str sp.fn),
+        ("base", str sp.base), ("reflected", Json.bool sp.reflected), ("arity", Json.int sp.arity)]) specTable
+    pure <| Json.mkObj [("model", Json.mkObj [("ops", opsJ), ("installed", instJ)]), ("spec", specJ)]
+  | _ => throw s!"C01: unknown entry {entry}"
 
 end ALV.Driver.C01
